@@ -78,6 +78,7 @@ impl Server {
         Server { port, routes, hits }
     }
     pub fn set(&self, path: &str, c: Canned) { self.routes.lock().unwrap().insert(path.to_string(), c); }
+    pub fn unset(&self, path: &str) { self.routes.lock().unwrap().remove(path); }
     pub fn hits(&self, path: &str) -> u64 { self.hits.lock().unwrap().get(path).copied().unwrap_or(0) }
     pub fn uri(&self, path: &str) -> String { format!("https://localhost:{}{}", self.port, path) }
 }
